@@ -35,3 +35,266 @@ pub(crate) fn tvalid<H, T>(t: &ThinArc<H, T>) -> bool {
     let got = vrt::g_req(tbase(t));
     tcnt(t) >= 1 && (!vrt::g_on() || (vrt::g_live(tbase(t)) && got.0 as u128 == want.0 && got.1 == want.1))
 }
+
+// ------------------------------------------------------------------------------------------
+// witnesses: ThinArc<u16, u32> (padding after the header), symbolic length <= 4, symbolic contents
+// ------------------------------------------------------------------------------------------
+pub(crate) const TL: usize = 4;
+pub(crate) fn mk_thin_u32(n: usize) -> (ThinArc<u16, u32>, usize, u16, [u32; TL]) {
+    let buf: [u32; TL] = kani::any();
+    let len: usize = kani::any();
+    kani::assume(len <= TL);
+    let h: u16 = kani::any();
+    let t = ThinArc::from_header_and_slice(h, &buf[..len]);
+    set_tcnt(&t, n);
+    (t, len, h, buf)
+}
+
+// @h props=C10,C06,C05,C11 fuc=ThinArc::from_header_and_slice,Arc::into_thin,Arc::from_header_and_slice,HeaderWithLength::new
+gproof! { fn c10_thin_from_slice_repr__u16_u32() {
+    let (t, len, h, buf) = mk_thin_u32(1);
+    assert!(rlen(&t) == len && t.slice.len() == len && t.header.length == len && t.header.header == h);
+    let i: usize = kani::any();
+    kani::assume(i < TL);
+    if i < len { assert!(t.slice[i] == buf[i]); }
+    assert!(tvalid(&t) && tcnt(&t) == 1 && vrt::ga(1) && vrt::gd(0));
+    assert!(vrt::g_last_is(tbase(&t), vrt::spec_hs::<HeaderWithLength<u16>, u32>(len)));
+    assert!(core::mem::size_of::<ThinArc<u16, u32>>() == core::mem::size_of::<usize>());
+    assert!(core::mem::size_of::<Option<ThinArc<u16, u32>>>() == core::mem::size_of::<usize>());
+    core::mem::forget(t);
+} }
+
+// @h props=C10,C06,C05 fuc=ThinArc::from_header_and_slice,Arc::into_thin note="over-aligned element, byte header"
+gproof! { fn c10_thin_from_slice_repr__u8_a16() {
+    let buf: [S16a16; 3] = [S16a16::any(), S16a16::any(), S16a16::any()];
+    let len: usize = kani::any();
+    kani::assume(len <= 3);
+    let h: u8 = kani::any();
+    let t = ThinArc::from_header_and_slice(h, &buf[..len]);
+    assert!(rlen(&t) == len && t.slice.len() == len && t.header.header == h);
+    let i: usize = kani::any();
+    kani::assume(i < 3);
+    if i < len { assert!(t.slice[i] == buf[i]); assert!(vrt::addr(&t.slice[i] as *const S16a16) % 16 == 0); }
+    assert!(tvalid(&t) && tcnt(&t) == 1);
+    assert!(vrt::g_last_is(tbase(&t), vrt::spec_hs::<HeaderWithLength<u8>, S16a16>(len)));
+    drop(t);
+    assert!(vrt::gd(1) && vrt::glive(0));
+} }
+
+// @h props=C10,C06 bounded=len<=3 fuc=ThinArc::from_header_and_iter,Arc::from_header_and_iter,Arc::into_thin
+gproof! { #[kani::unwind(5)] fn c10_thin_from_iter_repr__tr() {
+    let len: usize = kani::any();
+    kani::assume(len <= 3);
+    let hd = Tr8::new();
+    let hid = hd.id;
+    let t = ThinArc::from_header_and_iter(hd, vrt::TrIter::new(len));
+    assert!(rlen(&t) == len && t.slice.len() == len && t.header.header.id == hid);
+    let mut i = 0;
+    while i < len { assert!(t.slice[i].id == hid + 1 + i as u8); i += 1; }
+    assert!(tvalid(&t) && tcnt(&t) == 1 && vrt::drops() == 0 && vrt::clones() == 0);
+    drop(t);
+    assert!(vrt::drops() == len + 1 && vrt::gd(1) && vrt::glive(0));
+} }
+
+// @h props=C10,C11 fuc=ThinArc::deref,ThinArc::with_arc,thin_to_thick,Arc::from_protected
+gproof! { fn c10_thin_deref_matches_fat() {
+    let n = any_count();
+    let (t, len, h, buf) = mk_thin_u32(n);
+    let (ph, ps, pl) = (vrt::addr(&t.header.header as *const u16), vrt::addr(t.slice.as_ptr()), t.slice.len());
+    assert!(vrt::addr(&*t as *const HeaderSliceWithLengthUnchecked<u16, u32>) == tdata(&t));
+    let b0 = tbase(&t);
+    let same = t.with_arc(|a| {
+        base(a) == b0 && vrt::addr(&a.header.header as *const u16) == ph && vrt::addr(a.slice.as_ptr()) == ps
+            && a.slice.len() == pl && a.header.length == pl
+    });
+    assert!(same && pl == len && tcnt(&t) == n);
+    core::mem::forget(t);
+} }
+
+// @h props=C01,C04,C16 fuc=ThinArc::clone,ThinArc::with_protected_arc,Arc::protected_into_thin
+gproof! { fn c01_thin_clone() {
+    let n = any_count();
+    let (t, len, h, buf) = mk_thin_u32(n);
+    let (b0, c0) = (tbase(&t), tcw(&t));
+    let t2 = t.clone();
+    assert!(rd(c0) == n + 1 && tbase(&t2) == b0 && rlen(&t2) == len && t2.header.header == h);
+    assert!(vrt::ga(1) && vrt::gd(0));
+    core::mem::forget(t);
+    core::mem::forget(t2);
+} }
+
+// @h props=C01,C04,C05 fuc=ThinArc::drop,Arc::protected_from_thin,thin_to_thick
+gproof! { fn c01_thin_drop__u32() {
+    let n = any_count();
+    let (t, len, h, buf) = mk_thin_u32(n);
+    let (b0, c0) = (tbase(&t), tcw(&t));
+    drop(t);
+    if n == 1 { assert!(vrt::gd(1) && !vrt::g_live(b0)); } else { assert!(vrt::gd(0) && vrt::glive_at(b0) && rd(c0) == n - 1); }
+    kani::cover!(n == 1, "last owner");
+    kani::cover!(n > 1, "not last owner");
+} }
+
+// @h props=C01,C05 bounded=len<=2 fuc=ThinArc::drop
+gproof! { #[kani::unwind(4)] fn c01_thin_drop__tr() {
+    let n = any_count();
+    let len: usize = kani::any();
+    kani::assume(len <= 2);
+    let t = ThinArc::from_header_and_iter(Tr8::new(), vrt::TrIter::new(len));
+    set_tcnt(&t, n);
+    let (b0, c0) = (tbase(&t), tcw(&t));
+    drop(t);
+    if n == 1 { assert!(vrt::drops() == len + 1 && vrt::gd(1) && !vrt::g_live(b0)); }
+    else { assert!(vrt::drops() == 0 && vrt::gd(0) && rd(c0) == n - 1); }
+} }
+
+// @h props=C10,C01,C04 fuc=Arc::from_thin,Arc::into_thin,Arc::protected_from_thin,Arc::from_protected,Arc::into_thin_unchecked,Arc::from_unprotected_unchecked,Arc::protected_into_thin
+gproof! { fn c10_thin_fat_thin_roundtrip() {
+    let n = any_count();
+    let (t, len, h, buf) = mk_thin_u32(n);
+    let (b0, c0) = (tbase(&t), tcw(&t));
+    let fat = Arc::from_thin(t);
+    assert!(base(&fat) == b0 && cnt(&fat) == n && fat.slice.len() == len && fat.header.length == len && fat.header.header == h);
+    let t2 = Arc::into_thin(fat);
+    assert!(tbase(&t2) == b0 && rd(c0) == n && rlen(&t2) == len && tvalid(&t2));
+    assert!(vrt::ga(1) && vrt::gd(0));
+    core::mem::forget(t2);
+} }
+
+// @h props=C10,C07 kind=panic site="Length needs to be correct" fuc=Arc::into_thin note="recorded length (symbolic) != true length"
+gpanic! { fn c10_into_thin_mismatch_refused() {
+    let buf: [u32; TL] = kani::any();
+    let len: usize = kani::any();
+    kani::assume(len <= TL);
+    let rl: usize = kani::any();
+    kani::assume(rl != len);
+    let fat = Arc::from_header_and_slice(HeaderWithLength::new(7u16, rl), &buf[..len]);
+    let t = Arc::into_thin(fat);
+    core::mem::forget(t);
+} }
+
+// @h props=C10 fuc=Arc::into_thin note="recorded length == true length: accepted"
+gproof! { fn c10_into_thin_match_accepted() {
+    let buf: [u32; TL] = kani::any();
+    let len: usize = kani::any();
+    kani::assume(len <= TL);
+    let fat = Arc::from_header_and_slice(HeaderWithLength::new(7u16, len), &buf[..len]);
+    let b0 = base(&fat);
+    let t = Arc::into_thin(fat);
+    assert!(tbase(&t) == b0 && rlen(&t) == len && t.slice.len() == len && tvalid(&t));
+    core::mem::forget(t);
+} }
+
+// @h props=C01,C04,C10 fuc=ThinArc::with_arc,Arc::clone,Arc::drop
+gproof! { fn c04_thin_with_arc_callback() {
+    let n = any_count();
+    kani::assume(n < isize::MAX as usize);
+    let (t, len, h, buf) = mk_thin_u32(n);
+    let (b0, c0) = (tbase(&t), tcw(&t));
+    let keep: bool = kani::any();
+    let seen = t.with_arc(|a| {
+        let inside = Arc::count(a);
+        assert!(base(a) == b0 && a.slice.len() == len && ThinArc::strong_count(&t) == inside);
+        let c = a.clone();
+        assert!(Arc::count(a) == inside + 1);
+        if keep { core::mem::forget(c); } else { drop(c); }
+        inside
+    });
+    assert!(seen == n && rd(c0) == if keep { n + 1 } else { n });
+    assert!(vrt::ga(1) && vrt::gd(0));
+    core::mem::forget(t);
+} }
+
+// @h props=C04 fuc=ThinArc::strong_count
+gproof! { fn c04_thin_strong_count() {
+    let n = any_count();
+    let (t, len, h, buf) = mk_thin_u32(n);
+    assert!(ThinArc::strong_count(&t) == n && tcnt(&t) == n);
+    core::mem::forget(t);
+} }
+
+// @h props=C10,C03 fuc=ThinArc::with_arc_mut,HeaderSliceWithLengthProtected::header_mut,HeaderSliceWithLengthProtected::slice_mut,Arc::get_mut
+gproof! { fn c10_thin_with_arc_mut_mutate() {
+    let n = any_count();
+    let (mut t, len, h, buf) = mk_thin_u32(n);
+    let (b0, c0) = (tbase(&t), tcw(&t));
+    let (nh, nv): (u16, u32) = (kani::any(), kani::any());
+    let granted = t.with_arc_mut(|a| {
+        match Arc::get_mut(a) {
+            Some(p) => { *p.header_mut() = nh; if len > 0 { p.slice_mut()[0] = nv; } assert!(p.length() == len && p.slice().len() == len); true }
+            None => false,
+        }
+    });
+    // mutable access iff sole owner; the length word cannot be reached through the Protected API
+    assert!(granted == (n == 1));
+    assert!(tbase(&t) == b0 && rd(c0) == n && rlen(&t) == len && tvalid(&t));
+    if granted { assert!(t.header.header == nh); if len > 0 { assert!(t.slice[0] == nv); } }
+    else { assert!(t.header.header == h); }
+    core::mem::forget(t);
+} }
+
+// @h props=C10,C01 fuc=ThinArc::with_arc_mut,Arc::protected_from_thin,Arc::drop note="callback replaces the Arc"
+gproof! { fn c10_thin_with_arc_mut_replace() {
+    let n = any_count();
+    let (mut t, len, h, buf) = mk_thin_u32(n);
+    let (b0, c0) = (tbase(&t), tcw(&t));
+    let other: ThinArc<u16, u32> = ThinArc::from_header_and_slice(9u16, &[7u32, 8]);
+    let b1 = tbase(&other);
+    t.with_arc_mut(|a| { *a = Arc::protected_from_thin(other); });
+    // the ThinArc now points at the replacement; the old allocation lost exactly one owner
+    assert!(tbase(&t) == b1 && b1 != b0 && rlen(&t) == 2 && t.slice.len() == 2 && t.header.header == 9 && t.slice[1] == 8);
+    assert!(tcnt(&t) == 1 && tvalid(&t));
+    if n == 1 { assert!(vrt::gd(1) && !vrt::g_live(b0)); } else { assert!(vrt::gd(0) && rd(c0) == n - 1); }
+    assert!(vrt::ga(2));
+    core::mem::forget(t);
+} }
+
+// @h props=C11,C01,C04 fuc=ThinArc::into_raw,ThinArc::from_raw,ThinArc::as_ptr,ThinArc::heap_ptr,ThinArc::ptr
+gproof! { fn c11_thin_raw_roundtrip() {
+    let n = any_count();
+    let (t, len, h, buf) = mk_thin_u32(n);
+    let (b0, c0) = (tbase(&t), tcw(&t));
+    assert!(t.heap_ptr() as usize == b0 && t.ptr() as usize == b0 && vrt::glive_at(b0));
+    let ap = t.as_ptr();
+    let raw = t.into_raw();
+    assert!(raw == ap);                 // as_ptr is "into_raw without consuming"
+    assert!(rd(c0) == n && vrt::glive_at(b0)); // the raw pointer is an owner
+    let t2: ThinArc<u16, u32> = unsafe { ThinArc::from_raw(raw) };
+    assert!(tbase(&t2) == b0 && tcnt(&t2) == n && rlen(&t2) == len && t2.header.header == h && tvalid(&t2));
+    assert!(vrt::ga(1) && vrt::gd(0));
+    core::mem::forget(t2);
+} }
+
+// @h props=C11 finding=F3 fuc=ThinArc::as_ptr note="statement of C11: as_ptr returns the address at which the value itself lives"
+gproof! { fn c11_thin_as_ptr_value_addr() {
+    let (t, len, h, buf) = mk_thin_u32(1);
+    let value_addr = vrt::addr(&*t as *const HeaderSliceWithLengthUnchecked<u16, u32>);
+    assert!(t.as_ptr() as usize == value_addr, "F3 ThinArc::as_ptr is not the address Deref yields");
+    core::mem::forget(t);
+} }
+
+// @h props=C11 finding=F3 fuc=ThinArc::into_raw note="statement of C11: into_raw returns the address at which the value itself lives"
+gproof! { fn c11_thin_into_raw_value_addr() {
+    let (t, len, h, buf) = mk_thin_u32(1);
+    let value_addr = vrt::addr(&*t as *const HeaderSliceWithLengthUnchecked<u16, u32>);
+    let raw = t.into_raw();
+    assert!(raw as usize == value_addr, "F3 ThinArc::into_raw is not the address Deref yields");
+} }
+
+// @h props=C16 kind=panic site="abort" fuc=ThinArc::clone
+gpanic! { fn c16_thin_clone_overflow_aborts() {
+    let n: usize = kani::any();
+    kani::assume(n > isize::MAX as usize);
+    let (t, len, h, buf) = mk_thin_u32(n);
+    let t2 = t.clone();
+    core::mem::forget(t);
+    core::mem::forget(t2);
+} }
+
+// @h props=C16 kind=panic site="abort" fuc=ThinArc::with_arc,Arc::clone note="clone inside with_arc"
+gpanic! { fn c16_clone_inside_thin_with_arc_overflow_aborts() {
+    let n: usize = kani::any();
+    kani::assume(n > isize::MAX as usize);
+    let (t, len, h, buf) = mk_thin_u32(n);
+    t.with_arc(|a| { let c = a.clone(); core::mem::forget(c); });
+    core::mem::forget(t);
+} }
